@@ -584,6 +584,14 @@ func (sc *serverConn) handleStreams() {
 		markClosed(strmID)
 		strms.Del(strmID)
 
+		// A stream that goes while its header block is still arriving (its
+		// request timed out between two frames of it) leaves the rest of the
+		// block to be discarded, and discarding has to start where decoding
+		// stopped: in the middle of a field, if one was cut.
+		if len(strm.previousHeaderBytes) > 0 {
+			sc.discardLeft = append(sc.discardLeft[:0], strm.previousHeaderBytes...)
+		}
+
 		sc.closeBodyStream(strm)
 
 		// A handler still owns ctx, so neither the memory nor the concurrency
@@ -833,8 +841,11 @@ loop:
 				// if the stream doesn't exist, create it
 
 				if fr.Type() == FrameResetStream {
-					// only send go away on idle stream not on an already-closed stream
-					if fr.Stream() > sc.lastID {
+					// only send go away on idle stream not on an already-closed
+					// stream. A stream this endpoint refused is closed, not idle,
+					// although it never became the latest one: the peer may well
+					// cancel it before it has read the refusal.
+					if _, closed := closedStrms[fr.Stream()]; fr.Stream() > sc.lastID && !closed {
 						sc.writeGoAway(fr.Stream(), ProtocolError, "RST_STREAM on idle stream")
 
 						if canCloseAfterGoAway() {
